@@ -4,12 +4,16 @@ import os
 
 # Sanitizer reports are not symbolized: symbolizing costs ~100 ms per report, and a defect that
 # over-reads produces thousands of crashing cases (each one is a re-forked child of the harness).
-os.environ.setdefault("ASAN_OPTIONS", "detect_leaks=0:abort_on_error=1:handle_abort=0:print_summary=0:"
-                      "allocator_may_return_null=1:symbolize=0:print_legend=0:fast_unwind_on_fatal=1")
+os.environ.setdefault("ASAN_OPTIONS", "detect_leaks=0:halt_on_error=0:suppress_equal_pcs=0:abort_on_error=1:"
+                      "handle_abort=0:print_summary=0:allocator_may_return_null=1:symbolize=0:print_legend=0:"
+                      "fast_unwind_on_fatal=1")
 
 ID = "C08"
 LEVEL = "proof"
-SAN = ["-fsanitize=address,undefined", "-fno-sanitize-recover=all", "-fno-omit-frame-pointer"]
+# ASan in recover mode (see harness.cpp): a faulty case is reported as "crash asan" without killing the process;
+# UBSan errors still abort
+SAN = ["-fsanitize=address,undefined", "-fno-sanitize-recover=undefined", "-fsanitize-recover=address",
+       "-fno-omit-frame-pointer"]
 HARNESSES = [
     # plain build: guard zones readable and filled with the other argument's characters
     {"name": "main", "src": "harness.cpp", "flags": ["-O1", "-DTETL_ENABLE_CONTRACT_CHECKS=1"]},
